@@ -91,6 +91,23 @@ Example rows_zero_old_refuted :
   /\ schema_int true (Some 1%Z) (mkLit true 3 true) = IStored 3.
 Proof. exact rows_zero_old_refuted_lemma. Qed.
 
+(* ---- duplicated top level schema keys (validation/jsonvalidate.go, N9) -------------------------- *)
+(* For every root object (members in text order, literal duplicates and letter-case variants
+   included) and every required section: if SchemaValidate accepts it -- with the top-level-key
+   check it applies on the valid path according to Gen/Safety.v (fix 53ef0bb) -- then every member
+   json.Unmarshal loads into that section's struct field passed the section's JSON schema. *)
+Theorem dup_keys_validated : forall root name fname,
+  (forall m, In m root -> m_exact m = name -> m_fold m = fname) ->
+  section_accepted schema_validate_checks_top_level_keys name root = true ->
+  forall m, In m (loaded fname root) -> m_valid m = true.
+Proof. exact dup_keys_validated_lemma. Qed.
+
+Example dup_keys_old_refuted :
+  let root := [mkM 1 1 true; mkM 2 1 false] in
+  section_accepted false 1 root = true /\ existsb (fun m => negb (m_valid m)) (loaded 1 root) = true
+  /\ section_accepted true 1 root = false.
+Proof. exact dup_keys_old_refuted_lemma. Qed.
+
 (* ---- idr/query.go wrappers; javascript results ------------------------------------------------ *)
 (* Whatever the xpath engine does on a compiled expression (panic, or any number of nodes; the
    engine itself is third party and not modelled) MatchAny / matchNode and MatchAll / MatchSingle
